@@ -25,6 +25,7 @@ FILES = [
 ]
 
 FUNC = (ast.FunctionDef, ast.AsyncFunctionDef, ast.Lambda)
+PROPS = "all"
 
 
 # ---------------------------------------------------------------------------------------------------------
@@ -393,7 +394,7 @@ def one(job):
                                cwd=tmp, capture_output=True, text=True, env={**os.environ, "PYTHONPATH": tmp, "PYTHONDONTWRITEBYTECODE": "1"})
             tail = [l for l in r.stdout.splitlines() if " passed" in l or " failed" in l or "error" in l.lower()][-1:]
             tres = tail[0] if tail else r.stdout[-200:]
-        out = subprocess.run(["/venv/bin/python", "-m", "hyverif", "all", "--no-write", "--repo", tmp], capture_output=True, text=True,
+        out = subprocess.run(["/venv/bin/python", "-m", "hyverif", PROPS, "--no-write", "--repo", tmp], capture_output=True, text=True,
                              cwd="/verif", env={**os.environ, "VERIF_TIER": ""}).stdout
     finally:
         shutil.rmtree(tmp, ignore_errors=True)
@@ -410,12 +411,15 @@ def main():
     if args[0] == "emit":
         sys.stdout.write(transform(args[1], open(os.path.join("/repo", args[2])).read())); return
     args = args[1:]
+    global PROPS
     jobs, tests, ts = 16, False, list(TRANSFORMS)
     while args and args[0].startswith("-"):
         if args[0] == "-j":
             jobs = int(args[1]); args = args[2:]
         elif args[0] == "--tests":
             tests = True; args = args[1:]
+        elif args[0] == "--props":
+            PROPS = args[1]; args = args[2:]
         elif args[0] == "-t":
             ts = args[1].split(","); args = args[2:]
         else:
